@@ -93,6 +93,15 @@ Proof.
   induction H as [|x xs Hx _ IH]; intros k; simpl; constructor; [apply NL_epush; exact Hx | apply IH].
 Qed.
 
+Lemma NL_items_from pre s k xs :
+  NL (concat (mapi_from (fun i x => map (epush (pre ++ [(s, i)])) (cr_events x)) k xs)) ->
+  Forall (fun x => NL (cr_events x)) xs.
+Proof.
+  revert k. induction xs as [|x xs IH]; intros k H; [constructor|].
+  simpl in H. apply Forall_app in H. destruct H as [G1 G2]. constructor; [|apply (IH (S k)); exact G2].
+  unfold NL in *. rewrite Forall_map in G1. eapply Forall_impl; [|exact G1]. intros [kk pp] Hk. exact Hk.
+Qed.
+
 (* only Compound has a block_items slot *)
 Lemma block_items_compound n : wf_pyc n = true -> has_slot "block_items" n = true -> ncls n = "Compound".
 Proof.
@@ -134,11 +143,10 @@ Qed.
 
 Lemma G_step c a ks : Forall (fun sk => Forall G (snd sk)) ks -> G (Node c a ks).
 Proof.
-  intros IH W Hc Hp. rewrite cr_eq. rewrite plain_eq in Hp. unfold plain_step in Hp.
+  intros IH W Hc Hp. rewrite cr_eq. rewrite plain_eq in Hp. unfold plain_step at 1 in Hp.
   destruct (in_s c CR_SKIP) eqn:Sk.
   { unfold cr_step. rewrite Sk. apply NL_app; [constructor; [reflexivity | constructor]|].
     destruct (String.eqb c "Return"); [apply NL_dropped; reflexivity | apply NL_nil]. }
-  rewrite Sk in Hp.
   destruct (String.eqb_spec c "Assignment") as [->|N1].
   { (* the gate's conditions on an assignment are the dispatch's *)
     rewrite cov_Assignment in Hc. destruct (assign_ok (Node "Assignment" a ks)) eqn:Ok; [|discriminate].
@@ -199,7 +207,7 @@ Proof.
     destruct (attr_is (Node "UnaryOp" ar kr) "op" OP_NEG); [constructor; [reflexivity | constructor; [reflexivity | constructor]]|].
     destruct (ois_cls "Constant" (kid1 (Node "UnaryOp" ar kr) "expr")); [constructor; [reflexivity | constructor]|].
     simpl in Hp. rewrite Hp. constructor; [reflexivity | constructor]. }
-  assert (NA : String.eqb c "Assignment" = false) by (apply String.eqb_neq; exact N1). rewrite NA in Hp.
+  assert (NA : String.eqb c "Assignment" = false) by (apply String.eqb_neq; exact N1). try rewrite NA in Hp.
   destruct (String.eqb_spec c "UnaryOp") as [->|N2].
   { change (cr_step "UnaryOp" a ks (annk cr_step ks)) with
         (if attr_in (Node "UnaryOp" a ks) "op" INC_DEC && ois_cls "ID" (orm_cast (kid1 (Node "UnaryOp" a ks) "expr")) then [Ev KFlow []]
@@ -242,16 +250,13 @@ Proof.
       change (cr_events (Node "Compound" ab kb)) with
           ([Ev KEnter []] ++ ev_iter [] "block_items" (akl (annk cr_step kb) "block_items")) in Gb.
       rewrite (akl_node cr_step "Compound" ab kb "block_items") in Gb. inversion Gb as [|? ? _ Gi]; subst.
-      rewrite ev_iter_nodes in Gi. unfold mapi in Gi. revert Gi. generalize 0.
-      induction (kidl (Node "Compound" ab kb) "block_items") as [|x xs IHx]; intros k Gi; [constructor|].
-      simpl in Gi. apply Forall_app in Gi. destruct Gi as [G1 G2]. constructor; [|apply (IHx (S k)); exact G2].
-      unfold NL in *. rewrite Forall_map in G1. eapply Forall_impl; [|exact G1]. intros [kk pp] Hk. exact Hk. }
+      rewrite ev_iter_nodes in Gi. unfold mapi in Gi. apply (NL_items_from [] "block_items" 0 _ Gi). }
     apply NL_app; [constructor; [reflexivity | constructor]|]. apply NL_app; [apply NL_dropped; reflexivity|].
     apply NL_app; [apply Br; assumption | apply Br; assumption]. }
   assert (NU : String.eqb c "UnaryOp" = false) by (apply String.eqb_neq; exact N2).
-  assert (NI : String.eqb c "If" = false) by (apply String.eqb_neq; exact N3). rewrite NU, NI in Hp.
+  assert (NI : String.eqb c "If" = false) by (apply String.eqb_neq; exact N3). try rewrite NU in Hp. try rewrite NI in Hp.
   destruct (String.eqb c "While" || String.eqb c "DoWhile" || String.eqb c "For") eqn:Lp.
-  { rewrite (plain_one c a ks "stmt") in Hp.
+  { cbv beta zeta in Hp. rewrite (plain_one c a ks "stmt") in Hp.
     assert (Body : cov (Node c a ks) = body_part (Node c a ks) -> NL (cr_child (Node c a ks) "stmt")).
     { intros E. rewrite E in Hc. unfold body_part in Hc. unfold cr_child.
       destruct (kid1 (Node c a ks) "stmt") as [x|] eqn:K; [|discriminate].
@@ -285,7 +290,7 @@ Proof.
       apply NL_app; [constructor; [reflexivity | constructor]|]. apply NL_app; [apply NL_dropped; reflexivity|].
       apply NL_app; [apply NL_dropped; reflexivity|]. apply NL_app; [apply NL_dropped; reflexivity | apply Body; exact E]. }
   destruct (String.eqb_spec c "Compound") as [->|N4].
-  { rewrite (plain_all "Compound" a ks "block_items") in Hp.
+  { cbv beta zeta in Hp. rewrite (plain_all "Compound" a ks "block_items") in Hp.
     change (cr_step "Compound" a ks (annk cr_step ks)) with ([Ev KEnter []] ++ ev_iter [] "block_items" (akl (annk cr_step ks) "block_items")).
     rewrite (akl_node cr_step "Compound" a ks "block_items").
     apply NL_app; [constructor; [reflexivity | constructor]|]. apply NL_ev_iter.
@@ -297,7 +302,7 @@ Proof.
     - apply (wf_kidl _ "block_items" x W Hx).
     - rewrite Forall_forall in Hc. apply Hc. apply in_map. exact Hx.
     - apply Hp. exact Hx. }
-  assert (NC : String.eqb c "Compound" = false) by (apply String.eqb_neq; exact N4). rewrite NC in Hp.
+  assert (NC : String.eqb c "Compound" = false) by (apply String.eqb_neq; exact N4). try rewrite NC in Hp.
   destruct (String.eqb_spec c "FuncCall") as [->|N5]; [|discriminate].
   { rewrite cov_FuncCall in Hc. destruct (fcall_special (Node "FuncCall" a ks)) eqn:Sp; [|discriminate].
     change (cr_step "FuncCall" a ks (annk cr_step ks)) with
@@ -334,12 +339,17 @@ Proof.
   pose proof (block_items_compound b Wb Fb) as Cls. destruct b as [cb ab kb]. simpl in Cls. subst cb.
   rewrite (cov_base "Compound" ab kb "block_items") in Cb by (cbn [In BASE_ITER]; auto).
   unfold iter_kids in Cb. apply iter_from_nil_inv in Cb.
-  apply NL_concat. unfold mapi. generalize 0.
   rewrite forallb_forall in Pl. rewrite Forall_forall in Cb.
   assert (Wk : forall x, In x (kidl (Node "Compound" ab kb) "block_items") -> wf_pyc x = true) by (intros x Hx; apply (wf_kidl _ "block_items" x Wb Hx)).
-  induction (kidl (Node "Compound" ab kb) "block_items") as [|x xs IHx]; intros k; simpl; constructor.
-  - apply NL_epush. apply G_all; [apply Wk; left; reflexivity | apply Cb; left; reflexivity | apply Pl; left; reflexivity].
-  - apply IHx; intros; [apply Pl | apply Cb | apply Wk]; try (right; assumption). simpl. right. assumption.
+  assert (Hall : Forall (fun x => NL (cr_events x)) (kidl (Node "Compound" ab kb) "block_items")).
+  { apply Forall_forall. intros x Hx. apply G_all; [apply Wk; exact Hx | apply Cb; apply in_map; exact Hx | apply Pl; exact Hx]. }
+  apply NL_concat. unfold mapi.
+  assert (Gen : forall k xs, Forall (fun x => NL (cr_events x)) xs ->
+                Forall NL (mapi_from (fun i s => map (epush [("body", 0); ("block_items", i)]) (cr_events s)) k xs)).
+  { intros k xs. revert k. induction xs as [|x xs IHx]; intros k Hx; simpl; constructor.
+    - inversion Hx; subst. apply NL_epush. assumption.
+    - inversion Hx; subst. apply IHx. assumption. }
+  apply Gen. exact Hall.
 Qed.
 
 (* non-vacuity: an ordinary function meets all hypotheses *)
